@@ -136,6 +136,37 @@ rule('D13', 'history', r'Some\(cursor\) if cursor > 0 => cursor,\n(\s*)None if s
 rule('D3', 'history', r'text\.as_bytes\(\)\.contains\(&0\)', 'crate::verif_specs::contains_byte(text.as_bytes(), 0)', 1,
      'slice::contains == existence of an equal element (shim contract)')
 
+# ---- autocomplete -----------------------------------------------------------------------------------
+rule('D11', 'autocomplete', r"#\[derive\(Clone, Debug\)\]\n#\[non_exhaustive\]\npub enum Request<'a> \{\n(.*?)\n\}\n",
+     r"#[derive(Debug)]\n#[non_exhaustive]\npub enum Request<'a> {\n\1\n}\n\n"
+     "impl<'a> Clone for Request<'a> {\n    fn clone(&self) -> Self {\n        match self {\n            Request::CommandName(name) => Request::CommandName(name),\n        }\n    }\n}\n", 1,
+     'derived Clone gets no Verus spec: replaced by the variant-wise impl #[derive(Clone)] expands to', flags=re.M | re.S)
+rule('D3', 'autocomplete', r"input\.contains\(' '\)", "crate::verif_specs::contains_byte(input.as_bytes(), b' ')", 1,
+     "str::contains(' ') == the byte 0x20 occurs: in UTF-8 an ASCII scalar is encoded as itself and never occurs "
+     'inside a multi-byte sequence (shim contract on bytes)')
+rule('D4', 'autocomplete', r'self\.autocompleted\.map\(\|len\| \{\n(.*?)\n        \}\)',
+     r'match self.autocompleted { Some(len) => Some({\n\1\n        }), None => None }', 1,
+     'Option::map(closure) == match (definition of Option::map); the closure builds a &str with an unchecked constructor',
+     flags=re.M | re.S)
+
+# ---- editor -----------------------------------------------------------------------------------------
+rule('D3', 'editor', r"right\s*\.iter\(\)\s*\.rev\(\)\s*\.position\(\|&b\| b != b' '\)\s*\.unwrap_or\(right\.len\(\)\)",
+     "crate::verif_specs::rposition_ne(right, b' ').unwrap_or(right.len())", 1,
+     'iter().rev().position(!=) == number of trailing elements equal to the value (shim contract)')
+rule('D4', 'editor', r'utils::char_byte_index\(text, (\w+)\)\.map\(\|s\| s \+ (\w+)\)',
+     r'(match utils::char_byte_index(text, \1) { Some(s) => Some(s + \2), None => None })', 2,
+     'Option::map(closure) == match (definition of Option::map)')
+rule('D17', 'editor', r'pub fn text_range\(&self, range: impl RangeBounds<usize>\) -> &str \{',
+     'pub fn text_range(&self, range: core::ops::RangeFrom<usize>) -> &str {', 1,
+     'monomorphisation: text_range is generic over RangeBounds<usize>, for which vstd has no generic spec; it is '
+     'verified at RangeFrom<usize>, the only instantiation in the crate (cli.rs: editor.text_range(initial_cursor..)); '
+     'the other match arms are then dead code')
+rule('X8', 'autocomplete', r"pub struct Autocompletion<'a> \{\n    autocompleted: Option<usize>,\n    buffer: &'a mut \[u8\],\n    partial: bool,\n\}",
+     "pub struct Autocompletion<'a> {\n    pub autocompleted: Option<usize>,\n    pub buffer: &'a mut [u8],\n    pub partial: bool,\n}", 1,
+     'visibility only: the fields are made public in the mirror (Verus treats a struct with any private field as '
+     'opaque) so that the spec accessors buf()/fin() can be open and the resolution of the mutable borrow '
+     '(final == current when the value is dropped) is visible to the calling module; no effect on behaviour')
+
 
 def apply(module, src, log):
     for r in RULES:
